@@ -32,25 +32,35 @@ TRUSTED = [
     "harness/pygen_pxnet.py (addresses / dotted strings / int(address) are one number; ipaddress.IPv4Address(<int>) is the "
     "range check `ipv4`; network_address / `in network` are the hand model's networkIp / inNet; bin().zfill(), "
     "rstrip('0'), split('.') are the list functions printed in the prelude of the generated file)",
+    "translator tie of avocado_i2n/vmnet/network.py (lean/I2N/Extracted/GenNetwork.lean): the pinned head of "
+    "reattach_interface (nic roles -> the interface objects c, r; a nic name of the server is the id of the object "
+    "registered under it, the empty name is registered nowhere), the pinned tail (self.params updates), the pinned "
+    "guards / first loop of integrate_node (new interface objects first..first+count-1), the heap primitives of the "
+    "prelude (ncOf, ipOf, delIfs, allocM, setIp, setNcRef, newNetconfig, fromInterfaceM, registerNc) that every pinned "
+    "statement is spelled with; validate: the dictionary `addresses` with distinct constant keys is the list of its "
+    "values, `assert X` is `if not X: raise AssertionError`, ip_start / ip_end use the hand model's minOff / maxOff",
 ]
 
 
 def extract(ctx):
     """second tie: the decision logic of avocado_i2n/vmnet/netconfig.py (get_allocatable_address, has_interface,
     can_add_interface, add_interface, translate_address, the getter of mask_bit, validate) and of
-    VMNetwork.reattach_interface translated to Lean from the CURRENT source by harness/pygen_pxnet.py (raises
+    VMNetwork.reattach_interface / integrate_node / __init__ (avocado_i2n/vmnet/network.py) translated to Lean from the CURRENT source by harness/pygen_pxnet.py (raises
     pygen.Unsupported when a function left the translated subset / a pinned statement changed; run.py records that as
     a proof problem and searches for a failing input)"""
     import pygen_pxnet
     if pygen_pxnet.extract_net(ctx):
-        ctx.notes.append("I2N/Extracted/GenNet.lean changed: the source of avocado_i2n/vmnet/netconfig.py / network.py "
+        ctx.notes.append("I2N/Extracted/GenNet.lean / GenNetwork.lean changed: the source of avocado_i2n/vmnet/netconfig.py / network.py "
                          "differs from the one the committed file was generated from (allocate_matches_source, "
                          "hasInterface_matches_source, canAdd_matches_source, addInterface_matches_source, "
                          "translate_matches_source, maskBit_matches_source, validate_matches_source, "
-                         "reattach_matches_source are re-checked)")
+                         "reattach_matches_source, integrateNode_matches_source, init_matches_source are re-checked)")
     ctx.extra["regenerated"] = ("lean/I2N/Extracted/GenNet.lean (VMNetconfig.get_allocatable_address, has_interface, "
-                                "can_add_interface, add_interface, translate_address, mask_bit getter, validate; "
-                                "VMNetwork.reattach_interface via harness/pygen_pxnet.py + harness/pygen.py)")
+                                "can_add_interface, add_interface, translate_address, mask_bit getter, validate), "
+                                "lean/I2N/Extracted/GenNetwork.lean (VMNetwork.reattach_interface, integrate_node, __init__) via "
+                                "harness/pygen_pxnet.py + harness/pygen.py; obligations validate_matches_source, "
+                                "reattach_matches_source, integrateNode_matches_source (place_, findNc_, placeAll_), "
+                                "init_matches_source")
 
 
 MAXV = 3   # violations recorded per key (every occurrence is counted in the distribution)
